@@ -127,6 +127,8 @@ inductive NameStep | lookupScheme | undeclaredFails | scopesOf | bodyIO | callAu
 
 /-- `validateSecurityRequirement` -/
 inductive OneStep
+  /-- `if len(securityRequirement) == 0 { return nil }` (not in the pinned source: the repair proposed for F-C07-1) -/
+  | emptyReqOk
   | sortedNames | optionsDefault | needAuthFunc | schemesFromComponents | bodyIO
   | forNames (steps : List NameStep) | retNil
   deriving DecidableEq, Repr
@@ -232,6 +234,7 @@ inductive OneOut | ret (ok : Bool) (log : List AuthCall) | stuck
 
 def runOne (env : Env) (k : Nat) : List OneStep → List SchemeUse → List AuthCall → OneOut
   | [], _, _ => .stuck
+  | .emptyReqOk :: r, names, log => if names.isEmpty then .ret true log else runOne env k r names log
   | .sortedNames :: r, names, log => runOne env k r (sortUses names) log
   | .optionsDefault :: r, names, log => runOne env k r names log
   | .needAuthFunc :: r, names, log => if env.auth.isNone then .ret false log else runOne env k r names log
